@@ -715,9 +715,7 @@ Lemma popcount_fuel_bits (M f : nat) :
 Proof.
   revert f. induction M as [|M IH]; intros f; [reflexivity|].
   cbn [popcount_fuel seq lsum]. rewrite plus_INR, IH, <- seq_shift, lsum_map.
-  f_equal.
-  - cbn [Nat.testbit]. unfold b2r. destruct (Nat.odd f); reflexivity.
-  - apply lsum_ext. intros i _. cbn [Nat.testbit]. reflexivity.
+  f_equal. cbn [Nat.testbit]. unfold b2r. destruct (Nat.odd f); reflexivity.
 Qed.
 
 (** ** Average energy *)
